@@ -30,7 +30,8 @@ def build_network(ctx, rng, sym, nt, pbond=0.8, maxdang=2, p_conj=0.25, label_ki
             names[t].append(f"k{t}{d}")
             idx[t].append(gen.rand_index(sr, rng, sym, maxd=maxd, maxc=maxc or (2 if nt > 3 else 3), dual=False if all_ket_dangling else None))
     if label_kind == "int":
-        labs = rng.sample(range(1, 60), nt)
+        # (sometimes a small range symmetric about zero: L and -L both occur)
+        labs = rng.sample(range(1, 60), nt) if rng.random() < 0.7 else rng.sample(range(-5, 6), nt)
     elif label_kind == "tuple":
         labs = [(rng.choice("ab"), v) for v in rng.sample(range(30), nt)]
     else:
